@@ -98,30 +98,40 @@ func (ck *checker) classifySpelling(root *node, so outcome, passes func(*node) b
 			"a legacy number literal is always decimal, however it is padded, but the migration gives it another value: " + so.source + " → " + so.migrated + "; " + so.detail, w}, true
 	}
 
-	// (b) an index counted from the end
+	// (b) an index counted from the end: WORD(s, -k), WORD_SLICE(s, -k), WORD_SLICE(s, i, -k)
 	for i := 0; i < size; i++ {
 		n, _, _ := nth(root, i)
-		if n.k != kCall || n.fn != "WORD" || len(n.args) < 2 {
+		if n.k != kCall || (n.fn != "WORD" && n.fn != "WORD_SLICE") || len(n.args) < 2 {
 			continue
 		}
-		iv, ok1 := ck.ref.eval(n.args[1])
-		tv, ok2 := ck.ref.eval(n.args[0])
-		if !ok1 || !ok2 || iv.t != tN || tv.t != tT {
+		tv, ok := ck.ref.eval(n.args[0])
+		if !ok || tv.t != tT {
 			continue
 		}
 		ws, ok := words(tv.s)
 		if !ok {
 			continue
 		}
-		idx, ok := iv.intIn(-int64(len(ws)), -1)
-		if !ok {
-			continue
+		variant := root.clone()
+		vn, _, _ := nth(variant, i)
+		fromEnd := false
+		for ai := 1; ai < len(n.args) && ai <= 2; ai++ {
+			if n.fn == "WORD" && ai > 1 {
+				break
+			}
+			iv, ok := ck.ref.eval(n.args[ai])
+			if !ok || iv.t != tN {
+				continue
+			}
+			if idx, ok := iv.intIn(-int64(len(ws)), -1); ok {
+				vn.args[ai] = intLit(len(ws) + 1 + idx)
+				fromEnd = true
+			}
 		}
-		argIdx := i + 1 + n.args[0].size()
-		if passes(replaced(root, argIdx, intLit(len(ws)+1+idx))) {
-			w["repair"] = "counting the word from the front instead of from the end makes the migration correct"
+		if fromEnd && passes(variant) {
+			w["repair"] = "counting from the front instead of from the end makes the migration correct: " + printer{spaced: true}.print(variant)
 			return classification{"index-shift|negative-index|call:" + strings.ToLower(n.fn),
-				"a negative word number counts from the end in both syntaxes (legacy -1 = new -1 = last word), but the migration decrements it like a 1-based index: " + so.source + " → " + so.migrated + "; " + so.detail, w}, true
+				"a negative word number counts from the end (legacy -1 = last word, as word(s, -1) in the new syntax), but the migration decrements it like a 1-based index: " + so.source + " → " + so.migrated + "; " + so.detail, w}, true
 		}
 	}
 
